@@ -72,7 +72,7 @@ M = [
     ("C15-locked-duplicate-unfixed", "C15", "pycoin/blockchain/BlockChain.py", "                    # a duplicate of a locked header: already part of the chain for good\n                    continue", "                    pass"),
     ("C15-adopts-only-at-bottom", "C15", "pycoin/blockchain/ChainFinder.py", "for i, node in enumerate(path[:-1]):", "for i, node in enumerate(path[:1]):"),
     ("C15-preload-index-off-by-one", "C15", "pycoin/blockchain/BlockChain.py", "            self.hash_to_index_lookup[the_hash] = idx\n", "            self.hash_to_index_lookup[the_hash] = idx + 1\n"),
-    ("C15-lock-callback-old-length", "C15", "pycoin/blockchain/BlockChain.py", "self._locked_chain[old_length : old_length + index], old_length", "self._locked_chain[old_length : old_length + index], 0"),
+    ("C15-lock-callback-old-length", "C15", "pycoin/blockchain/BlockChain.py", "self.did_lock_to_index_f(newly_locked, old_length)", "self.did_lock_to_index_f(newly_locked, 0)"),
     ("C19-native-not-probed", "C19", "pycoin/encoding/hash.py", '            ripemd160_native(b"").digest()\n', "            pass\n"),
     ("C19-pure-ripemd-padding-at-55", "C19", "pycoin/contrib/ripemd160.py", "((119 - len(data)) & 63)", "((119 - len(data)) & 63 or 64)"),
     ("C19-murmur-tail-swapped", "C19", "pycoin/bloomfilter.py", "k1 = (data[roundedEnd + 2] & 0xFF) << 16", "k1 = (data[roundedEnd + 2] & 0xFF) << 8"),
